@@ -273,6 +273,15 @@ def run(ck):
         c03_ops = None
     if c03_ops is not None:
         ops = c03_ops.run_ops(ck, quick, per_class_reports=1, unclassified_reports=3)
+    # the operator lowering of compile.rs IS modelled now (Compile/Lower.v; theorems C03_lowering_*): tie it on the
+    # one-operator programs (typed ones; 8..32 bit ones in the quick tier, the 64-bit multiplier is large)
+    if c03_ops is not None:
+        import lowertie
+        osrc = sorted(set(j.src for j in c03_ops.make_jobs(ck, quick) if not j.untyped))
+        ck.rng.shuffle(osrc)
+        if quick:
+            osrc = [x for x in osrc if "64" not in x]
+        lowertie.tie_pass(ck, [("op%d" % i, x) for i, x in enumerate(osrc)], max_programs=150 if quick else 1500, tag="optie")
     ck.coverage.update({
         "evaluations": tie["jobs"] + (ops or {}).get("programs", 0),
         "distinct_nontrivial": tie["distinct"] + (ops or {}).get("distinct_programs", 0),
@@ -293,7 +302,9 @@ def run(ck):
         "push_negation_circuit, push_subtraction_circuit, push_unsigned_division_circuit, "
         "push_signed_division_circuit, push_gt_circuit, push_comparator_circuit, push_mux, push_condswap "
         "(Gadgets.v, tied gate for gate); the operator lowering of compile.rs (operand extension, overflow wires, "
-        "multiplier array, shifts, casts) is NOT modelled in Coq: it is covered by the operator-level search only",
+        "multiplier array, shifts, casts, the x * c rewrite) is modelled in Compile/Lower.v, tied gate for gate on the one-operator "
+        "programs (coverage.lowering_tie) and proved bit-exact for every width (C03_lowering_*, Compile/TSemArith1/2.v); the "
+        "operator-level search against Rust's own checked arithmetic remains as the independent oracle",
         "theorems that need builder soundness are stated for every invariant inv with builder_ops_sound inv "
         "(Builder/BuilderSpec.v); its proof for the concrete invariant is Builder/BuilderProofs.v (C04)"])
 
